@@ -80,9 +80,13 @@ Fixpoint intersperse_sp (s : string) : string :=
   match s with EmptyString => EmptyString | String c EmptyString => s | String c r => String c (String " " (intersperse_sp r)) end.
 Fixpoint double_sp (s : string) : string :=
   match s with EmptyString => EmptyString | String c r => if Ascii.eqb c " "%char then String " " (String " " (double_sp r)) else String c (double_sp r) end.
+(* first letter lower-case, the rest upper-case *)
+Definition swapcase1 (s : string) : string := (py_lower (py_first1 s) ++ py_upper (py_from1 s))%string.
 Definition variants (n : string) : list string :=
   [ n; py_lower n; py_upper n; ("  " ++ n ++ " ")%string; py_remove_spaces n; intersperse_sp (py_remove_spaces n); double_sp n;
-    py_lower (py_remove_spaces n); py_upper (intersperse_sp (py_remove_spaces n)) ].
+    py_lower (py_remove_spaces n); py_upper (intersperse_sp (py_remove_spaces n));
+    py_lower (intersperse_sp (py_remove_spaces n)); py_lower (double_sp n); py_lower ("  " ++ n ++ " ")%string; py_upper (double_sp n);
+    swapcase1 n; swapcase1 (intersperse_sp (py_remove_spaces n)) ].
 Definition norm_id (s : string) : string := py_lower (py_remove_spaces s).
 Definition carries (s : setting) (n : string) : bool :=
   String.eqb (norm_id (sg_short s)) (norm_id n) || String.eqb (norm_id (sg_pdb s)) (norm_id n).
